@@ -335,7 +335,23 @@ def M_or_other_without_choices(rng, form):
     return {"kind": r"Please specify choices for this 'or other' question", "row": i + 2}
 
 
-MUTATIONS = [M_ambiguous_reference, M_or_other_without_choices, M_unmatched_end, M_mismatched_end, M_unclosed_begin, M_duplicate_sibling, M_invalid_name, M_unknown_reference, M_malformed_reference,
+def M_file_instance_clash(rng, form):
+    """two selects from files with the same stem and different extensions (or a pulldata/xml-external of that name): one instance id, two sources"""
+    stem = rng.choice(["cities", "places_1"])
+    e1, e2 = rng.sample([".csv", ".xml", ".geojson"], 2)
+    rows = rows_of(form)
+    rows.append({"type": f"select_one_from_file {stem}{e1}", "name": "fsel_a9", "label": "A"})
+    second = rng.choice(["select", "select", "multi", "xml-external", "csv-external"])
+    if second in ("select", "multi"):
+        rows.append({"type": f"{'select_one' if second == 'select' else 'select_multiple'}_from_file {stem}{e2}", "name": "fsel_b9", "label": "B"})
+    elif e1 == (".xml" if second == "xml-external" else ".csv"):
+        return None       # same source twice: not a clash
+    else:
+        rows.append({"type": second, "name": stem})
+    return {"kind": r"The same instance id will be generated for different external instance source URIs", "row": None, "subject": stem}
+
+
+MUTATIONS = [M_file_instance_clash, M_ambiguous_reference, M_or_other_without_choices, M_unmatched_end, M_mismatched_end, M_unclosed_begin, M_duplicate_sibling, M_invalid_name, M_unknown_reference, M_malformed_reference,
              M_unknown_type, M_missing_list, M_calculate_without_calculation, M_bad_parameters, M_unknown_parameter, M_instance_clash,
              M_duplicate_choice, M_missing_name, M_missing_label, M_duplicate_header, M_spaces_in_multi_choice]
 
